@@ -22,6 +22,9 @@ RULE = ("scenes: 1-8 (thorough <=20) separated convex obstacles (gap >= 1) in gr
         "{0, 5, 50, 0.5, 1.5, 2.75, 11.5}; Lee / naive visibility; IgnoreRegions on/off. Strict families: aligned-sides (2-4 "
         "separated rectangles sharing a side line, every insertion order, optimum along the line) and fractional-onebox (one "
         "rectangle, a 1-bend and a 2-bend route whose length gap d satisfies floor(p) < d < p for a fractional penalty p). "
+        "Edit histories (router kept alive, one deleteShape / moveShape per processTransaction, certificate rebuilt from the "
+        "current scene and checked after EVERY transaction; each transaction is its own case): edit-history (2-3 blockers across "
+        "the source-target line + bystanders, blockers removed/moved in random order) and edit-history-random (grid scenes). "
         "Non-trivial: some route has >= 3 points.")
 TRUSTED_BASE = ["Lean 4.33 kernel", "axioms: propext, Classical.choice, Quot.sound", "Lean compiler for the driver",
                 "harness + generator + hex-float import", "driver glue (parsing, graph assembly from specGraph/edgesFrom)"]
